@@ -15,7 +15,7 @@ REQUIRED = ["exact: result == pointwise combination (complete PL comparison)", "
             "mismatched hom_deg rejected", "mismatched grids rejected", "result keeps grid / degree"]
 RULE = ("random histories (3-12 steps) over a shared pool of operands: exact landscapes from diagrams and from explicit "
         "continuous zero-ended critical points (coincident / interleaved abscissae, sign changes, zero function, different depth "
-        "counts), grid landscapes from diagrams and from arbitrary value arrays (int64, float32, float64 tables); steps drawn from + - neg *c c* /c (int and float "
+        "counts; one case in 61 uses depth functions of 350-900 breakpoints on a shared lattice), grid landscapes from diagrams and from arbitrary value arrays (int64, float32, float64 tables); steps drawn from + - neg *c c* /c (int and float "
         "scalars in {0,+-1,+-0.5,3,1e-3,1e3}), snap_pl, lc_approx, average_approx, and deliberately mismatched operands; results "
         "re-enter the pool; every pool member is snapshotted (deep copy) and re-compared after every step. non-trivial = history "
         "with >=3 steps containing a binary step whose operands have different depth counts or share an abscissa; distinct = "
@@ -26,6 +26,7 @@ ASSUMPTIONS = ["exact class: both sides piecewise linear => compared on the unio
                "(the representation's own contract); scalars are python int/float",
                "snap_pl outside the source grid's span is only judged where the source's edge value is 0 (statement does not say "
                "how a non-zero edge extends)"]
+REQUIRED_NOTES = ["long-operand-cases"]
 TECHNIQUE = "runtime monitoring: call-history recorder with deep snapshots of every operand, checked offline against a pointwise reference model"
 
 SCALARS = [0, 1, -1, 0.5, -0.5, 3, 1e-3, 1e3, 2, -2.5]
@@ -136,6 +137,19 @@ def gen_cp(rng):
     return cp
 
 
+def new_exact_long(rng):
+    """depth functions with several hundred breakpoints each on a shared half-integer lattice (sublevel-set / cubical
+    persistence of integer data gives such landscapes): long operands whose abscissae coincide often"""
+    cp = []
+    for _ in range(int(rng.integers(1, 3))):
+        n = int(rng.integers(350, 901))
+        xs = np.sort(rng.choice(np.arange(0, 2400) / 2.0, size=n, replace=False))
+        ys = rng.integers(-6, 7, n) / 2.0
+        ys[0] = ys[-1] = 0.0
+        cp.append([[float(x), float(y)] for x, y in zip(xs, ys)])
+    return PLE(critical_pairs=cp, hom_deg=0)
+
+
 def new_exact(rng):
     hom = int(rng.choice([0, 0, 0, 1]))
     if rng.random() < 0.5:
@@ -189,11 +203,16 @@ def magnitude(s):
 def run_case(ctx, k, rng):
     kind = "exact" if rng.random() < 0.5 else "grid"
     make = new_exact if kind == "exact" else new_grid
+    long_case = k % 61 == 3
+    if long_case:
+        kind, make = "exact", new_exact_long
+        ctx.note("long-operand-cases")
     pool = [make(rng) for _ in range(int(rng.integers(3, 6)))]
     snaps = [snapshot(P) for P in pool]
-    steps = int(rng.integers(3, 13))
+    steps = int(rng.integers(3, 13)) if not long_case else int(rng.integers(3, 6))
     log = []
-    ctx.begin(k, kind, {"kind": kind, "initial": [jsonable_snap(s) for s in snaps], "log": log})
+    ctx.begin(k, kind + ("/long" if long_case else ""), {"kind": kind, "initial": [jsonable_snap(s) for s in snaps] if not long_case else
+                                                          "long operands: %s breakpoints" % [[len(dp) for dp in s["cp"]] for s in snaps], "log": log})
     interesting = False
 
     def verify_pool(after):
@@ -350,7 +369,7 @@ def run_case(ctx, k, rng):
             wi = np.unravel_index(int(np.argmax(err)), err.shape) if err.size else (0, 0)
             ctx.check("exact: result == pointwise combination (complete PL comparison)", okk, step=stepno, op=op,
                       depth=int(wi[0]) + 1, t=float(ts[wi[1]]) if err.size else None,
-                      got=float(G[wi]) if err.size else None, want=float(W[wi]) if err.size else None, result_cp=rs["cp"])
+                      got=float(G[wi]) if err.size else None, want=float(W[wi]) if err.size else None, result_cp=rs["cp"] if not long_case else None)
             ctx.check("result keeps grid / degree", rs["hom"] == ss[0]["hom"], hom=rs["hom"])
         else:
             want = combine([s["values"] for s in ss], coeffs, ss[0]["num"])
